@@ -14,6 +14,7 @@ STD_ASSUME = [
 PROPS = {
     "C05": {
         "units": ["codec"],
+        "rlimit": 30,
         "kani": [K1],
         "level": "proof",
         "assumptions": STD_ASSUME + [
@@ -31,6 +32,43 @@ PROPS = {
                       "verified. NOT decided: the hexadecimal sentence (u64_to_hex/hex_to_u64 are one-line wrappers over "
                       "core::fmt / from_str_radix; nothing of ours to put under contract) - see DESIGN.md.",
         "technique": "Verus contracts on extracted real functions + bit_vector lemmas; Kani closed-term harness for the face table",
+    },
+    "C07": {
+        "units": ["tree"],
+        "rlimit": 30,
+        "level": "proof",
+        "assumptions": STD_ASSUME + [
+            "the face table contract of get_origins() is assumed here (discharged under C05/C06 by Kani k1_origins); C07 only "
+            "needs first_quintant < 5, which that contract implies",
+            "usize::pow / u64::pow / u64::saturating_pow under assumed std contracts (no-overflow precondition proved at call sites)",
+            "`(0..12).collect()` replaced by the verified helper range_u8_vec(0, 12) (item-local rewrite, assumed equivalent)",
+            "fan-out above 4^8 per call is out of the property's scope: cell_to_children may return Err there (it does beyond 4^20)",
+        ],
+        "search_ops": ["cell_to_children", "cell_to_parent", "get_res0_cells"],
+        "level_text": "Unbounded proof (Verus/Z3) on the real cell_to_parent, cell_to_children (three nested loops closed by "
+                      "invariants over a sequence-valued spec), get_res0_cells: results equal the specification's ancestor / "
+                      "children sequence for every u64 and every Option<i32>; plus lemmas over that specification: children are "
+                      "exactly the valid cells of the target resolution whose ancestor is c (both inclusions), pairwise distinct, "
+                      "count == 12/5/4-per-level fan-out, ancestor composes, ancestor is the iterated parent, children of "
+                      "children == children at the deeper level, every cell has exactly one parent which lists it.",
+        "level_note": "Assumed: std pow contracts, OnceLock face table (see C05), error text. The codec functions' contracts "
+                      "(serialize/deserialize/get_resolution) are re-verified inside the unit; a failure there is attributed to C05 "
+                      "and makes this check UNDECIDED (exit 2), not a C07 alarm.",
+        "technique": "Verus contracts + loop invariants on extracted real functions; inductive lemmas over sequence specs",
+    },
+    "C20": {
+        "units": ["tree"],
+        "rlimit": 30,
+        "level": "proof",
+        "assumptions": STD_ASSUME,
+        "search_ops": ["order", "is_first_child", "get_stride"],
+        "level_text": "Unbounded proof (Verus/Z3): lemmas over the layout specification that the real serialize is proved to "
+                      "implement - among cells of resolution >= 1 the subtree of a cell is exactly one open ID interval "
+                      "(both directions), descendants of a precede descendants of b for a<b of equal resolution, ancestors at "
+                      "every level 1..r are ordered; plus functional contracts on the real is_first_child and get_stride.",
+        "level_note": "Pure lemmas over spec fn enc (bit_vector + linear arithmetic); tied to the code through serialize's "
+                      "postcondition res == Ok(enc(norm(c))) (C05). Base-cell exception is part of the statement (resolution >= 1).",
+        "technique": "Verus lemmas (bit_vector) over the encoder specification + contracts on is_first_child/get_stride",
     },
 }
 
@@ -54,6 +92,8 @@ SEARCH_OPS = {
 # allow-list of assumptions per generated unit ("<what> <name>"); anything else -> UNDECIDED (machinery error)
 TRUSTED = {
     "codec": ["external_body err_msg", "external_body get_origins"],
+    "tree": ["external_body err_msg", "external_body get_origins", "assume_specification usize::pow",
+             "assume_specification u64::pow", "assume_specification u64::saturating_pow"],
 }
 
 NOT_APPLICABLE = {
@@ -66,5 +106,5 @@ NOT_APPLICABLE = {
     "C19": "authalic series inverse/monotone/odd to 1e-12: Clenshaw sums of sin/cos over f64; out of reach",
     "C04": "not built yet (tier B)", "C06": "not built yet (tier B)", "C07": "not built yet", "C08": "not built yet",
     "C09": "not built yet", "C10": "not built yet", "C11": "not built yet (tier C)", "C13": "not built yet (tier B)",
-    "C14": "not built yet", "C17": "not built yet (tier B)", "C18": "not built yet (tier B)", "C20": "not built yet",
+    "C14": "not built yet", "C17": "not built yet (tier B)", "C18": "not built yet (tier B)", 
 }
